@@ -148,6 +148,7 @@ func (db *Backend) ListBucket(name string, prefix *gofakes3.Prefix, page gofakes
 func (db *Backend) CreateBucket(name string) error {
 	db.lock.Lock()
 	defer db.lock.Unlock()
+	defer db.traceBucket("CreateBucket", name)
 
 	if db.buckets[name] != nil {
 		return gofakes3.ResourceError(gofakes3.ErrBucketAlreadyExists, name)
@@ -160,6 +161,7 @@ func (db *Backend) CreateBucket(name string) error {
 func (db *Backend) DeleteBucket(name string) error {
 	db.lock.Lock()
 	defer db.lock.Unlock()
+	defer db.traceBucket("DeleteBucket", name)
 
 	if db.buckets[name] == nil {
 		return gofakes3.ErrNoSuchBucket
@@ -177,6 +179,7 @@ func (db *Backend) DeleteBucket(name string) error {
 func (db *Backend) ForceDeleteBucket(name string) error {
 	db.lock.Lock()
 	defer db.lock.Unlock()
+	defer db.traceBucket("ForceDeleteBucket", name)
 
 	if db.buckets[name] == nil {
 		return gofakes3.ErrNoSuchBucket
@@ -258,6 +261,7 @@ func (db *Backend) PutObject(bucketName, objectName string, meta map[string]stri
 
 	db.lock.Lock()
 	defer db.lock.Unlock()
+	defer db.traceKey("PutObject", bucketName, objectName, "")
 
 	bucket := db.buckets[bucketName]
 	if bucket == nil {
@@ -292,6 +296,7 @@ func (db *Backend) CopyObject(srcBucket, srcKey, dstBucket, dstKey string, meta 
 func (db *Backend) DeleteObject(bucketName, objectName string) (result gofakes3.ObjectDeleteResult, rerr error) {
 	db.lock.Lock()
 	defer db.lock.Unlock()
+	defer db.traceKey("DeleteObjectVersion", bucketName, objectName, "")
 
 	bucket := db.buckets[bucketName]
 	if bucket == nil {
@@ -304,6 +309,7 @@ func (db *Backend) DeleteObject(bucketName, objectName string) (result gofakes3.
 func (db *Backend) DeleteMulti(bucketName string, objects ...string) (result gofakes3.MultiDeleteResult, err error) {
 	db.lock.Lock()
 	defer db.lock.Unlock()
+	defer db.traceKeys("DeleteObjectVersion", bucketName, objects)
 
 	bucket := db.buckets[bucketName]
 	if bucket == nil {
@@ -337,6 +343,7 @@ func (db *Backend) DeleteMulti(bucketName string, objects ...string) (result gof
 func (db *Backend) DeleteMultiVersions(bucketName string, objects ...gofakes3.ObjectID) (result gofakes3.MultiDeleteResult, err error) {
 	db.lock.Lock()
 	defer db.lock.Unlock()
+	defer db.traceVersions("DeleteObjectVersion", bucketName, objects)
 
 	bucket := db.buckets[bucketName]
 	if bucket == nil {
@@ -392,6 +399,7 @@ func (db *Backend) SetVersioningConfiguration(bucketName string, v gofakes3.Vers
 
 	db.lock.Lock()
 	defer db.lock.Unlock()
+	defer db.traceBucket("PutVersioning", bucketName)
 
 	bucket := db.buckets[bucketName]
 	if bucket == nil {
@@ -451,6 +459,7 @@ func (db *Backend) HeadObjectVersion(bucketName, objectName string, versionID go
 func (db *Backend) DeleteObjectVersion(bucketName, objectName string, versionID gofakes3.VersionID) (result gofakes3.ObjectDeleteResult, rerr error) {
 	db.lock.Lock()
 	defer db.lock.Unlock()
+	defer db.traceKey("DeleteObjectVersion", bucketName, objectName, string(versionID))
 
 	bucket := db.buckets[bucketName]
 	if bucket == nil {
